@@ -14,6 +14,7 @@ def run(ctx):
     worlds = T.generate(ctx, n - n // 2, 0, force={"release_tg": True, "dag": True})
     # parents SCHEDULED by an earlier invocation with their FAST strategy (remaining time < slowest runtime), re-offered
     worlds += T.generate(ctx, n // 2, 0, force={"release_tg": True, "dag": True, "sched_fast_parent": True, "retract": True})
+    worlds += [T.running_parent_world(ctx.rng) for _ in range(10 if ctx.tier == "quick" else 80)]
     results = T.run_worlds(worlds, probe=T.probe_spec(ctx, ["c11"], max_pairs=8))
     ctx.rules.append("half of the worlds have a parent SCHEDULED earlier with the faster of two strategies (remaining time differs from "
                      "the slowest runtime) and re-offered; adversarial probes: for EVERY (parent, child) pair with variables (at most 8 per world, re-offered SCHEDULED parents first) the live model is "
